@@ -921,8 +921,16 @@ def update_file(remote, local, verbose=False):
     for patch_name in patches_to_apply:
         if verbose:
             print("update_file: downloading patch %r" % patch_name)
-        patch_contents = download_gunzip_lines(
-            remote + '.diff/' + patch_name + '.gz')
+        try:
+            patch_contents = download_gunzip_lines(
+                remote + '.diff/' + patch_name + '.gz')
+        except UnicodeError:
+            # the patch leads to or from a version that is not UTF-8 text (as
+            # for a local copy that cannot be decoded)
+            if verbose:
+                print("update_file: cannot read patch %r, downloading full file"
+                      % patch_name)
+            return download_file(remote, local)
         if read_lines(patch_contents) != patch_hashes[patch_name]:
             raise ValueError("patch %r was garbled" % patch_name)
         patch_contents_unicode = list(patch_contents)
